@@ -18,7 +18,7 @@ ID = "C04"
 LEVEL = "fault_enumeration"
 RULE = ("Worker-level cases: a workload (0..6 chunks of 0..4 items, then a stop order or nothing-but-quota), quota in {1..4, inf}, "
         "bounded/unbounded results queue (both the block=False path and the queue.Full fallback), and for each workload every fault "
-        "in {none, begin raises, functor raises at global item j for every j, end raises}; the real BaseFunctorWorker.run() runs on "
+        "in {none, begin raises, functor raises at global item j for every j, end raises} x what is raised {an Exception, a BaseException that is not an Exception, SystemExit, KeyboardInterrupt, GeneratorExit}; the real BaseFunctorWorker.run() runs on "
         "harness queues whose get() on an empty queue is a verdict ('asks for a chunk beyond its quota'), not a hang. Oracle: event "
         "log matches begin, item*, end with begin and end exactly once and end last also when an exception propagates; processed "
         "chunks <= quota; the results queue holds exactly the chunks completed before the fault, in order; the worker id is posted "
@@ -47,6 +47,13 @@ def minimize(case, sig):
 
 class Boom(Exception):
     pass
+
+
+class BoomBase(BaseException):
+    """not an Exception: what sys.exit(), a KeyboardInterrupt or a closed generator look like to `except Exception`"""
+
+
+EXC_KINDS = [Boom, BoomBase, SystemExit, KeyboardInterrupt, GeneratorExit]
 
 
 class Overrun(Exception):
@@ -90,10 +97,11 @@ class HQ:
 
 
 class W(BaseFunctorWorker):
-    def __init__(self, quota, fault):
+    def __init__(self, quota, fault, exc_class=Boom):
         BaseFunctorWorker.__init__(self, FakeContext(), quota)
         self.log = []
         self.fault = fault
+        self.exc_class = exc_class
         self.n = 0
         self.ready_during_begin = False
 
@@ -101,18 +109,18 @@ class W(BaseFunctorWorker):
         self.log.append("begin")
         self.ready_during_begin = self.begin_finished.is_set()
         if self.fault == "begin":
-            raise Boom()
+            raise self.exc_class()
 
     def end(self):
         self.log.append("end")
         if self.fault == "end":
-            raise Boom()
+            raise self.exc_class()
 
     def __call__(self, x):
         if self.fault == self.n:
             self.n += 1
             self.log.append("item!")
-            raise Boom()
+            raise self.exc_class()
         self.n += 1
         self.log.append("item")
         return x + 100
@@ -126,10 +134,11 @@ def run_worker(case, ctx):
     total = sum(len(c) for c in chunks)
     reach_quota = quota <= len(chunks)
     seen = ctx.extra.setdefault("fault_keys", [])
-    for fault in [None, "begin", "end"] + list(range(total)):
+    faults = [(None, Boom)] + [(f, k) for f in ["begin", "end"] + list(range(total)) for k in EXC_KINDS]
+    for fault, exc_class in faults:
         if not sentinel and not reach_quota and fault in (None, "end"):
             continue  # the worker would legitimately wait for more work
-        w = W(quota, fault)
+        w = W(quota, fault, exc_class)
         w.wid = 7
         w.work_queue = HQ()
         w.results_queue = HQ(rq_max)
@@ -140,10 +149,10 @@ def run_worker(case, ctx):
         if sentinel:
             w.work_queue.put(None)
         exc = None
-        tag = "fault=%r chunks=%r sentinel=%r quota=%r rq_max=%r" % (fault, chunks, sentinel, case["quota"], rq_max)
+        tag = "fault=%r (%s) chunks=%r sentinel=%r quota=%r rq_max=%r" % (fault, exc_class.__name__, chunks, sentinel, case["quota"], rq_max)
         try:
             w.run()
-        except Boom as e:
+        except exc_class as e:
             exc = e
         except Overrun:
             ctx.fail("worker/asks-for-work-beyond-quota-or-stop", "run() asked for another chunk after its quota/stop order: %s log=%r" % (tag, w.log))
@@ -196,9 +205,11 @@ def run_worker(case, ctx):
         if w.ready_during_begin:
             ctx.fail("worker/ready-signalled-before-begin-completed", "begin_finished was set while begin() was still running: %s" % tag)
             return
-        seen.append(repr(fault))
+        seen.append(repr(fault) + exc_class.__name__)
         if fault is not None:
             ctx.label("fault")
+            if exc_class is not Boom:
+                ctx.label("fault-not-an-Exception")
         if reach_quota and not functor_fault:
             ctx.label("quota-reached")
         if w.results_queue.blocking_puts:
